@@ -104,7 +104,8 @@ def _worker(case):
     tau = case['expectile']
     res.update(n=n, m=m, B=B, A=A, y=np.asarray(y, dtype=float), w=wv, keep=keep, coef=coef,
                pred=np.asarray(gam.predict_mu(X), dtype=float), has_constraint=bool(gam.terms.hasconstraint),
-               exposure=(expo is not None), colmax=float(np.abs(B).max()) if B.size else 0.0)
+               exposure=(expo is not None), colmax=float(np.abs(B).max()) if B.size else 0.0,
+               col_ratio=(lambda cn: float(cn.max() / np.median(cn[cn > 0])) if (cn > 0).any() else 1.0)(np.linalg.norm(B, axis=0)) if B.size else 1.0)
 
     # ---- LAPACK / Cholesky contracts on the loop locals of the last iteration
     k = L['R'].shape[0]
@@ -186,7 +187,10 @@ def _worker(case):
             # B'W^2 z = 0 and optimum beta = 0 exactly, and a backward error relative to |rhs| + |N||beta| would be noise / noise
             rhs_abs_vec = np.abs(B).T @ np.where(keep, np.abs(wk / (V * g * g) * z), 0.0)
             res['be_norm'] = float(np.linalg.norm(grad) / (2 * (np.linalg.norm(N, 2) * np.linalg.norm(coef) + res['rhs_abs_norm']) + 1e-300))
-            res['be_eq'] = float(np.linalg.norm(grad / dg) / (2 * (np.linalg.norm(Neq, 2) * np.linalg.norm(coef * dg) + np.linalg.norm(rhs_abs_vec / dg)) + 1e-300))
+            # (numerator less the rounding noise of the gradient itself, 256 eps (|B|'|w r| + |A||beta|) componentwise: with
+            # 1e9-weighted constraint terms or responses of size 1e-8 under the inverse link that noise is not negligible)
+            gnoise = 256 * EPS * np.linalg.norm(scale / dg)
+            res['be_eq'] = float(max(0.0, np.linalg.norm(grad / dg) - gnoise) / (2 * (np.linalg.norm(Neq, 2) * np.linalg.norm(coef * dg) + np.linalg.norm(rhs_abs_vec / dg)) + 1e-300))
             res['be_comp'] = float(np.max(np.abs(grad) / (2 * (np.abs(N) @ np.abs(coef) + np.abs(rhs)) + 1e-300)))
             try:
                 delta = np.linalg.solve(Neq, grad / dg / 2) / dg
@@ -306,7 +310,9 @@ def run(ctx):
         # <= 2.2e-5 on such problems; a solve that drops directions is off by O(1))
         thr = max(1e-6, 10 * EPS * r.get('cond_raw', r['cond']))
         judged_ii = thr <= 1e-3
-        judged_iii = (not judged_ii) and 10 * EPS * r['cond'] <= 1e-3
+        # (iii) is for problems whose raw conditioning comes from the SCALE OF THE COLUMNS (largest column norm >= 1e6 x the median one);
+        # a raw condition number inflated by the working weights (means spread over 12 decades) is genuine ill-conditioning
+        judged_iii = (not judged_ii) and 10 * EPS * r['cond'] <= 1e-3 and r.get('col_ratio', 1.0) >= 1e6
         ctx.count('conditioning', 'cond<=4.5e11 (judged)' if judged_ii else ('badly scaled only: coarse criterion (iii)' if judged_iii else 'ill-conditioned ((ii) not judged)'))
         fd_ok = all(abs(num - ana) <= 1e-4 * sc + 1e-6 * abs(ana) for (num, ana, sc) in r['fd'])
         oracle_bad = None
